@@ -8,6 +8,7 @@ TOK = re.compile(r'''
   | (?P<qid>[%@]"(?:[^"\\]|\\.)*")
   | (?P<id>[%@][-a-zA-Z$._0-9]+)
   | (?P<dq>"(?:[^"\\]|\\.)*")
+  | (?P<comdat>\$(?:"[^"]*"|[-a-zA-Z$._0-9]+))
   | (?P<meta>![-a-zA-Z$._0-9]*(?:\([^)]*\))?)
   | (?P<attrgrp>\#\d+)
   | (?P<fp>-?\d+\.\d+(?:e[+-]?\d+)?|0x[0-9A-Fa-f]+)
@@ -926,7 +927,11 @@ class Emit:
                 if not nested[h]:
                     out2.append('  { %s goto %s; }' % (' '.join(phi_commit(h)), L(h)))
                 else:
-                    out2.append('  if (v___exit%d == 0) { %s goto %s; }' % (k, ' '.join(phi_commit(h)), L(h)))
+                    # the backward goto must itself be the conditional jump: CBMC resets a loop's unwinding counter only when
+                    # it meets the backward goto with a false condition
+                    pc = ' '.join(phi_commit(h))
+                    if pc: out2.append('  if (v___exit%d == 0) { %s }' % (k, pc))
+                    out2.append('  if (v___exit%d == 0) goto %s;' % (k, L(h)))
                     out2.append('  switch (v___exit%d) { %s default: __CPROVER_assert(0, "ll2c: bad loop exit"); __CPROVER_assume(0); }' % (k, ' '.join(latch_cases[h])))
             else:
                 out2.append(c)
